@@ -18,7 +18,7 @@ for sid in ids:
         rows.append((sid, "PATCH-DOES-NOT-APPLY")); print(rows[-1], flush=True); continue
     try:
         t0 = time.time()
-        rc, o = sh("cd /verif && timeout 1500 ./check %s --tier quick 2>&1 | tail -3" % pid)
+        rc, o = sh("cd /verif && timeout 1500 ./check %s --tier quick 2>&1 | grep -E '^(PASS|FAIL|VIOLATION|KNOWN-FINDING)' | tail -4" % pid)
         det = "VIOLATION property=%s" % pid in o
         nfi = "no-failing-input-found" in o
     finally:
@@ -28,5 +28,13 @@ for sid in ids:
     m = json.load(open(d + "/meta.json"))
     m["redetected"] = {"by": pid, "result": rows[-1][1], "repo_head": sh("git -C /repo rev-parse --short HEAD")[1].strip()}
     json.dump(m, open(d + "/meta.json", "w"), indent=1)
-open("/verif/seeded/REGRESSION.txt", "w").write("\n".join(" ".join(r) for r in rows) + "\n")
+# merge into the existing table (a run over a subset updates only those lines)
+table = {}
+if os.path.exists("/verif/seeded/REGRESSION.txt"):
+    for l in open("/verif/seeded/REGRESSION.txt"):
+        if l.strip():
+            table[l.split()[0]] = l.strip()
+for r in rows:
+    table[r[0]] = " ".join(r)
+open("/verif/seeded/REGRESSION.txt", "w").write("\n".join(table[k] for k in sorted(table)) + "\n")
 print("ALLDONE", sum(1 for r in rows if r[1].startswith("detected")), "of", len(rows))
